@@ -24,10 +24,10 @@ ASSUMPTIONS = [
     "on a name clash between left and right non-key columns the left column is kept unchanged (nothing is asserted about the right one)",
 ]
 REACH = {"quick": {"join:left_join": 1000, "join:full_join": 1000, "join:semi_join": 1000, "empty-left": 100, "empty-right": 100,
-                   "no-match": 200, "na-key-left": 500, "na-key-right": 500, "dup-right": 1000, "renamed": 1000}}
+                   "no-match": 200, "na-key-left": 500, "na-key-right": 500, "dup-right": 1000, "renamed": 1000, "after-inplace-edit": 500}}
 
 JOINS = ["left_join", "inner_join", "semi_join", "anti_join", "full_join"]
-KEY_KINDS = ["int", "int", "str", "str", "float", "date", "bool", "lstr", "datetime", "obool", "ustr"]
+KEY_KINDS = ["int", "int", "str", "str", "float", "date", "bool", "lstr", "datetime", "obool", "ustr", "timedelta"]
 
 def generate(rng, tier):
     tags = set()
@@ -77,14 +77,35 @@ def generate(rng, tier):
         rng.shuffle(rest)
         rspec = [rspec[0]] + rest
     rng.shuffle(by)
-    return {"join": join, "left": lspec, "right": rspec, "by": by, "tags": sorted(tags)}
+    case = {"join": join, "left": lspec, "right": rspec, "by": by, "tags": sorted(tags)}
+    if rng.random() < 0.25:
+        side = rng.choice(["right", "right", "left"])
+        spec_ = rspec if side == "right" else lspec
+        cands = [(n, k, v) for n, k, v in spec_ if k in ("int", "float", "str", "date", "bool") and len(v) and n not in ("_lid_", "_rid_")]
+        if cands:
+            n, k, v = rng.choice(cands)
+            newv = rng.choice([x for x in v if x is not None] + gen.pool(rng, k, 0.0)[:3])
+            case["edit"] = (side, n, rng.randrange(len(v)), newv, k)
+    return case
 
 def _key(cells, names, i):
     k = tuple(cells[n][i] for n in names)
     return None if any(c == canon.NA for c in k) else tuple(c[1] if c[0] == "N" else c for c in k)
 
 def execute(case):
+    r = _execute(case, None)
+    ed = case.get("edit")
+    if r["violations"] or not ed:
+        return r
+    # history clause: join once, assign one cell of the right (or left) frame in place, join again by the same keys
+    r2 = _execute(case, ed)
+    r["classes"] = r["classes"] + ["after-inplace-edit"]
+    r["violations"] = [{"key": "after-inplace-edit:" + x["key"], "msg": "after joining once and assigning one cell in place: " + x["msg"]} for x in r2["violations"]]
+    return r
+
+def _execute(case, edit):
     import dataiter as di
+    import numpy as np
     join, lspec, rspec, by = case["join"], case["left"], case["right"], case["by"]
     nl, nr = len(lspec[0][2]), len(rspec[0][2])
     by1 = [b if isinstance(b, str) else b[0] for b in by]
@@ -92,6 +113,17 @@ def execute(case):
     kinds = [s[1] for s in lspec if s[0] in by1]
     renamed = any(not isinstance(b, str) for b in by)
     L, R = gen.build_frame(lspec), gen.build_frame(rspec)
+    if edit is not None:
+        side, col, pos, newv, kind = edit
+        try:
+            for j in ("left_join", "semi_join", "anti_join", "inner_join"):
+                getattr(L, j)(R, *by)
+        except Exception:
+            pass
+        target = R if side == "right" else L
+        arr = np.asarray(dict.__getitem__(target, col))
+        if len(arr):
+            arr[pos % len(arr)] = gen.np_column(kind, [newv])[0]
     lc, rc = canon.frame_cells(L), canon.frame_cells(R)
     lkeys = [_key(lc, by1, i) for i in range(nl)]
     rkeys = [_key(rc, by2, i) for i in range(nr)]
